@@ -8,7 +8,9 @@ def run(c):
     proxylib.decide(c, "C01", relevant=lambda row: True)
     # "only if ... authorized": the caller's identity is the one it has at that connection (a process may exec)
     proxylib.identity_history(c, "C01")
-    from checks import c07
+    from checks import c07, c02
+    import random
+    c02.listener_slice(c, random.Random(c.seed + 11), c.tier == "thorough", prop="C01")
     c07.late_record(c, "C01")
     # nothing sent on a connection without a record of its own is relayed, whatever the accept queue holds
     c07.burst_reuse_check(c, "C01", 100 if c.tier != "thorough" else 400)
